@@ -4,6 +4,10 @@
 //   mspq_pops     cds::container::MSPriorityQueue, pre-filled by the main thread, scheduled threads only pop
 //   mspq_pushes   cds::container::MSPriorityQueue, scheduled threads only push, main thread drains afterwards
 //   imspq_pops / imspq_pushes   the same for cds::intrusive::MSPriorityQueue      spec "maxpq <capacity()>"
+//   mspq_mixed / imspq_mixed    pushes and pops overlap freely; no order is claimed for such histories, only
+//                 conservation: after a sequential drain every successfully pushed item has been popped exactly
+//                 once and nothing else was popped, and a push fails only if capacity() items can have been present
+//                 at some moment of its execution (client-side oracle, spec "none")
 // (MSPriorityQueue is only claimed to be correct for histories in which no push overlaps a pop.)
 #include <cds/init.h>
 #include <cds/gc/hp.h>
@@ -11,6 +15,7 @@
 #include <cds/container/fcpriority_queue.h>
 #include <cds/container/mspriority_queue.h>
 #include <cds/intrusive/mspriority_queue.h>
+#include <map>
 #include <memory>
 #include <queue>
 #include "../client.h"
@@ -176,12 +181,16 @@ struct Fixture {
     static char const* family() { return "pqueue"; }
     static std::vector<std::string> variants()
     {
-        return { "fcpq", "mspq_pops", "mspq_pushes", "imspq_pops", "imspq_pushes" };
+        return { "fcpq", "mspq_pops", "mspq_pushes", "imspq_pops", "imspq_pushes", "mspq_mixed", "imspq_mixed" };
     }
     std::unique_ptr<IPQueue> s;
     bool failed = false;
     std::string failure;
-    bool fc = false, pops_only = false, pushes_only = false;
+    bool fc = false, pops_only = false, pushes_only = false, mixed = false;
+    struct PushRec { long v; uint64_t inv, res; bool ok; };
+    struct PopRec { long v; uint64_t inv, res; };
+    std::vector<PushRec> pushes;       // threads are serialised: plain containers are fine
+    std::vector<PopRec> pops;
     size_t cap = 0;
     std::vector<long> prefilled;
     long next_id = 1;
@@ -207,6 +216,8 @@ struct Fixture {
         else if ( v == "mspq_pushes" ) { intrusive = false; pushes_only = true; }
         else if ( v == "imspq_pops" ) { intrusive = true; pops_only = true; }
         else if ( v == "imspq_pushes" ) { intrusive = true; pushes_only = true; }
+        else if ( v == "mspq_mixed" ) { intrusive = false; mixed = true; }
+        else if ( v == "imspq_mixed" ) { intrusive = true; mixed = true; }
         else { std::fprintf( stderr, "unknown variant %s\n", v.c_str()); std::exit( 2 ); }
 
         // constructor argument 1..16 (each value once per 24 cases, the small ones 2..8 twice so that
@@ -222,7 +233,14 @@ struct Fixture {
         }
         cap = s->capacity();
 
-        if ( pops_only ) {
+        if ( mixed ) {
+            // small heaps, so that slot reuse (a pop's bottom node is the next push's slot) and `full` both occur
+            static size_t const args[] = { 2, 3, 4, 7, 8, 4, 2, 16 };
+            s.reset();
+            s.reset( make_ms( intrusive, args[c.index % 8] ));
+            cap = s->capacity();
+        }
+        if ( pops_only || mixed ) {
             // main thread, unscheduled: pre-fill.  Deterministic in (seed, index) because the fixture
             // is built twice per case.
             Rng r( c.seed * 1000003ull + c.index * 7919ull + 99 );
@@ -231,13 +249,14 @@ struct Fixture {
             for ( size_t i = 0; i < k; ++i ) {
                 long val = long( 1 + r.below( 4 )) * 1000 + next_id++;
                 if ( !s->push( val )) { failed = true; failure = "pre-fill push failed below capacity"; }
-                else prefilled.push_back( val );
+                else { prefilled.push_back( val ); if ( mixed ) pushes.push_back( PushRec{ val, 0, 0, true } ); }
             }
         }
     }
     std::string spec() const
     {
         if ( fc ) return "maxpq";
+        if ( mixed ) return "none";
         std::ostringstream os;
         os << "maxpq " << cap;
         return os.str();
@@ -281,11 +300,54 @@ struct Fixture {
     }
     std::vector<long> exec( int, Op const& op )
     {
-        if ( op.name == "push" )
-            return { s->push( op.args[0] ) ? 1L : 0L };
+        if ( op.name == "push" ) {
+            if ( !mixed ) return { s->push( op.args[0] ) ? 1L : 0L };
+            uint64_t inv = tick();
+            bool ok = s->push( op.args[0] );
+            pushes.push_back( PushRec{ op.args[0], inv, tick(), ok } );
+            return { ok ? 1L : 0L };
+        }
         long v = 0;
-        if ( s->pop( v )) return { 1, v };
+        uint64_t inv = mixed ? tick() : 0;
+        if ( s->pop( v )) {
+            if ( mixed ) pops.push_back( PopRec{ v, inv, tick() } );
+            return { 1, v };
+        }
         return { 0 };
+    }
+    void conservation( std::ostream& out )
+    {
+        // sequential drain by the main thread
+        size_t drained = 0;
+        for ( size_t guard = 0; ; ++guard ) {
+            long v = 0;
+            if ( !s->pop( v )) break;
+            pops.push_back( PopRec{ v, ~uint64_t( 0 ) - 1, ~uint64_t( 0 ) } );
+            ++drained;
+            if ( guard > 64 ) { failed = true; failure = "drain did not reach an empty queue after 64 pops"; return; }
+        }
+        std::map<long, int> in, outm;
+        for ( auto const& p : pushes ) if ( p.ok ) ++in[p.v];
+        for ( auto const& p : pops ) ++outm[p.v];
+        std::ostringstream os;
+        for ( auto const& kv : in ) {
+            int n = outm.count( kv.first ) ? outm[kv.first] : 0;
+            if ( n == 0 ) os << " item-lost=" << kv.first;
+            else if ( n > 1 ) os << " item-duplicated=" << kv.first;
+        }
+        for ( auto const& kv : outm )
+            if ( !in.count( kv.first )) os << " popped-but-never-pushed=" << kv.first;
+        // a failed push: at most  (#successful pushes invoked before its response) - (#pops that returned before
+        // its invocation)  items can have been present at any moment of its execution
+        for ( auto const& f : pushes ) {
+            if ( f.ok ) continue;
+            long ub = 0;
+            for ( auto const& p : pushes ) if ( p.ok && p.inv < f.res ) ++ub;
+            for ( auto const& p : pops ) if ( p.res < f.inv ) --ub;
+            if ( ub < long( cap )) os << " push-failed-below-capacity=" << f.v << "(at-most-" << ub << "-of-" << cap << ")";
+        }
+        out << "# mixed: pushed=" << in.size() << " popped=" << pops.size() - drained << " drained=" << drained << " cap=" << cap << '\n';
+        if ( !os.str().empty()) { failed = true; failure = "conservation:" + os.str(); }
     }
     void finish( std::ostream& out )
     {
@@ -295,6 +357,7 @@ struct Fixture {
             os << "flat combining: " << fcwatch::freed_linked << " publication record(s) freed while still linked in the publication list";
             failure = os.str();
         }
+        if ( mixed ) { conservation( out ); return; }
         if ( pops_only ) {
             // the pre-fill happened before every scheduled operation
             for ( long v : prefilled )
